@@ -739,11 +739,12 @@ Plan gen_plan(u64 seed, const std::string& prop, const std::string& tier)
             {
             case 0: v = cap + 1; break;
             case 1: v = kLenMax[li]; break;
-            case 2: v = kLenMax[li] + 1; break; // the null value, all ones
+            case 2: v = kLenMax[li] + 1 - fl.below(9); break; // the null value (all ones) and its neighbours
             case 3: v = cap + fl.below(1000); break;
             default: v = fl.next() & (li == 3 ? ~0ULL : ((1ULL << (8 * L)) - 1)); break;
             }
-            if(li == 3 && v > (1ULL << 35)) v = (1ULL << 35) - fl.below(1000); // guard page reach (DESIGN 4.2)
+            // no cap for 64-bit lengths: with the fixed address space a wild access is a reproducible outcome,
+            // and lengths close to 2^64 are exactly where prefix + length wraps
             f.a = {(long long)v};
             p.ops.push_back(f);
         }
